@@ -94,10 +94,19 @@ def sizeof_bound_rule(prog, rule, only=None):
 class LocaleInterp(Interp):
     """ts = True while LC_NUMERIC has been switched to "C" by this function and not yet restored."""
 
+    def __init__(self, prog, fn, enter_helpers=(), restore_helpers=()):
+        super().__init__(prog, fn)
+        self.enter_helpers = set(enter_helpers) - {fn.name}
+        self.restore_helpers = set(restore_helpers) - {fn.name}
+
     def initial_ts(self):
         return False
 
     def call(self, st, n, argvals):
+        if n.get("callee") in self.enter_helpers:
+            return [(st.with_ts(True), NONZERO), (st, av_const(0))]
+        if n.get("callee") in self.restore_helpers:
+            return [(st.with_ts(False), None)]
         if n.get("callee") == "setlocale" and len(n.get("args", [])) > 1:
             a1 = strip(n["args"][1])
             if const(a1) == 0:
@@ -106,6 +115,36 @@ class LocaleInterp(Interp):
                 return [(st.with_ts(True), NONZERO), (st, av_const(0))]     # change: may fail
             return [(st.with_ts(False), None)]              # restore from a saved name
         return [(st, None)]
+
+
+def locale_helpers(prog):
+    """(functions in which setlocale may appear, enter-helpers, restore-helpers).
+    A static function is a locale helper when all of its (transitive) callers are the two formatters or other helpers.  An
+    enter-helper contains the switch to "C" and returns a pointer; a restore-helper passes a saved name back to setlocale on
+    every path and never switches."""
+    allowed = set(SETLOCALE_ALLOWED_IN)
+    callers = prog.callers()
+    cand = {fn.name for fn in prog.all_functions() if fn.calls_to("setlocale") and fn.name not in allowed and fn.static}
+    changed = True
+    ok = set()
+    while changed:
+        changed = False
+        for f in sorted(cand - ok):
+            cs = {c[0].name for c in callers.get(f, [])}
+            if cs and cs <= (allowed | ok):
+                ok.add(f)
+                changed = True
+    enter, restore = set(), set()
+    for f in ok:
+        fn = prog.fn(f)
+        calls = fn.calls_to("setlocale")
+        changing = [n for (b, i, r, n) in calls if strip(n["args"][1]).get("k") == "str"]
+        restoring = [(b.id, i) for (b, i, r, n) in calls if strip(n["args"][1]).get("k") != "str" and const(n["args"][1]) != 0]
+        if changing and "*" in fn.ret:
+            enter.add(f)
+        elif restoring and not changing and cfgq.must_follow(fn, (fn.entry, -1), restoring):
+            restore.add(f)
+    return allowed | ok, enter, restore
 
 
 def ownership(prog):
@@ -212,19 +251,38 @@ def run(prog, chk):
     r3 = chk.rule("R3-process-wide-state", "setlocale only in the two number formatters, with the queried old locale restored on every "
                   "exit; no call changes the floating-point environment, the environment variables, the directory or signals",
                   floor=2)
+    locale_fns, enter_helpers, restore_helpers = locale_helpers(prog)
     for fn in prog.all_functions():
         for (b, i, r, n) in fn.calls():
             c = n.get("callee")
             if c in FORBIDDEN_GLOBAL_STATE and c != "setlocale":
                 r3.violation(fn.file, fn.name, n.get("l"), "global-state-call:%s" % c, "%s() changes process-wide state" % c)
-            if c == "setlocale" and fn.name not in SETLOCALE_ALLOWED_IN:
+            if c == "setlocale" and fn.name not in locale_fns:
                 r3.violation(fn.file, fn.name, n.get("l"), "setlocale-outside-formatters:%s" % fn.name, "setlocale() called in %s" % fn.name)
     r3.ok("no-fenv-env-signal-calls", "none of %s is called anywhere" % ", ".join(x for x in FORBIDDEN_GLOBAL_STATE if x != "setlocale"))
-    for fname in SETLOCALE_ALLOWED_IN:
+    for fname in sorted(set(SETLOCALE_ALLOWED_IN) | locale_fns):
         fn = prog.fn(fname)
         calls = fn.calls_to("setlocale")
-        if not calls:
+        if not calls and not (prog.callees(fn) & set(enter_helpers)):
             r3.info(fname, "no setlocale call")
+            continue
+        if fname in restore_helpers:
+            r3.ok(fname + ":restore-helper", "restores the locale it is given on every path; used only by the formatters")
+            continue
+        if not calls:
+            # the formatter works through helpers only
+            it = LocaleInterp(prog, fn, enter_helpers, restore_helpers).run()
+            bad = [(st, node) for st, av, node in it.exits if st.ts]
+            key = "%s:setlocale-save-restore" % fname
+            if it.overflow:
+                r3.unproved(key, "not analysed to a fixpoint")
+            elif bad:
+                st, node = bad[0]
+                r3.violation(fn.file, fname, node.get("l") if node else fn.endline, key + ":exit",
+                             "an exit is reachable after the locale was changed to \"C\" (through %s) without restoring it"
+                             % "/".join(sorted(enter_helpers)), path=["L%s" % x for x in st.trail_lines()][-20:])
+            else:
+                r3.ok(key, "locale changed and restored through helpers on every exit (%d exits)" % len(it.exits))
             continue
         changing = [(b, i, n) for (b, i, r, n) in calls if const(n["args"][1]) != 0 and strip(n["args"][1]).get("k") == "str"]
         queries = [(b, i, n) for (b, i, r, n) in calls if const(n["args"][1]) == 0]
@@ -254,8 +312,13 @@ def run(prog, chk):
                 continue
             # every exit after the change passes a restoring call
             # path-sensitive: after a successful change every exit must have passed a restoring call
-            it = LocaleInterp(prog, fn).run()
-            bad = [(st, node) for st, av, node in it.exits if st.ts]
+            it = LocaleInterp(prog, fn, enter_helpers, restore_helpers).run()
+            if fname in enter_helpers:
+                # contract of an `enter` helper: locale changed <=> it returns a non-NULL saved name
+                bad = [(st, node) for st, av, node in it.exits
+                       if (st.ts and not (av is not None and av.nonzero())) or (not st.ts and not (av is not None and av.is_const() and av.value() == 0))]
+            else:
+                bad = [(st, node) for st, av, node in it.exits if st.ts]
             if it.overflow:
                 r3.unproved(key, "not analysed to a fixpoint")
             elif bad:
